@@ -13,8 +13,8 @@ QUICK = {
                                     "examine": 4, "append": 8, "search": 0, "fetchbody": 2}),
    }
 THOROUGH = {
-    "exhaustive": [("2sess-2mbox-3msgs-depth7", dict(depth=7, maxid=3, mbox=("inbox", "b"), acts=ALL)),
-                   ("1sess-2mbox-4msgs-depth7", dict(depth=7, maxid=4, sess=("A",), mbox=("inbox", "b"), acts=ALL,
+    "exhaustive": [("2sess-2mbox-3msgs-depth6", dict(depth=6, maxid=3, mbox=("inbox", "b"), acts=ALL)),
+                   ("1sess-2mbox-4msgs-depth6", dict(depth=6, maxid=4, sess=("A",), mbox=("inbox", "b"), acts=ALL,
                                                      sets="SetsMedium"))],
     "simulate": [("2mbox", dict(mbox=("inbox", "b"), maxid=8, maxpend=8, sets="SetsMedium", acts=ALL), 800, 32)],
     "random": 800,
